@@ -11,7 +11,7 @@ for fn in sorted(os.listdir(os.path.join(V, "props.d"))):
 NA_REASON = "not yet claimed in this commit: model/correspondence under construction (see DESIGN.md §8 order of work)"
 
 def main():
-    hooks_commits = subprocess.run(["git", "-C", "/repo", "log", "--format=%H", "--grep=^verif hooks"], capture_output=True, text=True).stdout.split()
+    hooks_commits = subprocess.run(["git", "-C", "/repo", "log", "--format=%H", "-E", "--grep=^(verif hooks|hook):"], capture_output=True, text=True).stdout.split()
     m = dict(
         version=1,
         setup_cmd="./check setup",
